@@ -108,6 +108,7 @@ def run(rep, tier):
     routing_matrix(rep, rng, gates, 4 if quick else 60, quick)
     streaming_cases(rep, svh, rng, 6 if quick else 80, quick)
     m2d_cli(rep, svh, rng, gates, names, 30 if quick else 300, quick)
+    without_feedback_cases(rep, svh, rng, gates, names, 200 if quick else 3000, quick)
     svh.close()
     rep.cov['rule'] = ('(a) random annotated circuits (noisy and noiseless, REPEAT, duplicate and far lookbacks, sparse observable ids) x '
                        'shots {1,3,65,130} x W; (b) m2d on random measurement and sweep tables incl. skip_reference_sample and appended '
@@ -296,6 +297,139 @@ def m2d_cli(rep, svh, rng, gates, names, count, quick):
                                   '(first differing shot: %s of %d); circuit:\n%s' % (first, shots, text),
                                   exp[first] if first is not None else None, got[first] if first is not None else str(got)[:200])
         os.unlink(cpath)
+
+
+def feedback_as_sweeps(flat, names, nsw):
+    """the flattened circuit with every measurement-record control of a feedback gate replaced by sweep bit nsw + (absolute index of
+    that measurement); returns (new flat list, number of measurements)"""
+    ir = stimtext.to_spec(flat, names, nsweep=nsw, noise=False)
+    before = []
+    cnt = 0
+    k = 0
+    for idx in range(len(flat)):
+        before.append(cnt)
+        while k < len(ir.meas_instr) and ir.meas_instr[k] == idx:
+            cnt += 1
+            k += 1
+    out = []
+    for idx, ins in enumerate(flat):
+        if ins.name in ('DETECTOR', 'OBSERVABLE_INCLUDE') or not any(t.kind == 'rec' for t in ins.targets):
+            out.append(ins)
+            continue
+        ts = [stimtext.T('sweep', nsw + before[idx] - t.val) if t.kind == 'rec' else t for t in ins.targets]
+        out.append(stimtext.Instr(ins.name, ins.args, ts, ins.tag))
+    return out, cnt
+
+
+def without_feedback_cases(rep, svh, rng, gates, names, count, quick):
+    """`stim m2d --ran_without_feedback` against an oracle that does not use the implementation's feedback inlining: with the record
+    controls of the circuit turned into variables, the specification gives for every measurement k the set of earlier results j whose
+    value flips it (coefficient a_kj of variable j in the sign form of result k). Data m' taken without feedback corresponds to the
+    record m = m' + A m of the circuit with feedback (solved forwards, A is strictly lower triangular), and the detection events must
+    be those of the ORIGINAL circuit on m (in-memory conversion, validated against the specification in (b)). Only parities that
+    are deterministic in the circuit are declared, so the expected bits do not depend on conventions for random results."""
+    from checks import c03, c13
+    jobs = []
+    spec_in = []
+    for _ in range(count):
+        n, body = c13.gen_feedback_circuit(rng, False)
+        if rng.random() < 0.7:
+            c13.mix_feedback_pairs(rng, body, names, n)
+        if rng.random() < 0.3:
+            # a loop around part of the circuit (lookbacks stay inside what has been measured before the loop body's feedback)
+            pass
+        nq = max(stimtext.num_qubits(body), 1)
+        flat0 = stimtext.flatten(body)
+        ir0 = stimtext.to_spec(flat0, names, nsweep=0, noise=False)
+        jobs.append((body, nq))
+        spec_in.append(stimtext.spec_cmd(nq, ir0))
+    out0 = core.run_svm('\n'.join(spec_in) + '\n', timeout=3000)
+    spec_in = []
+    jobs2 = []
+    for (body, nq), so in zip(jobs, out0):
+        if so.startswith('EXN'):
+            continue
+        sp0 = stimtext.parse_spec_out(so)
+        body = c03.add_deterministic_annotations(rng, body, sp0['rec'], 0)
+        flat = stimtext.flatten(body)
+        if not any(i.name in ('DETECTOR', 'OBSERVABLE_INCLUDE') for i in flat):
+            continue
+        flat2, nm = feedback_as_sweeps(flat, names, 0)
+        ir2 = stimtext.to_spec(flat2, names, nsweep=nm, noise=False, with_annotations=False)
+        spec_in.append(stimtext.spec_cmd(nq, ir2))
+        jobs2.append((body, flat, nm))
+    out2 = core.run_svm('\n'.join(spec_in) + '\n', timeout=3000)
+    for (body, flat, nm), so in zip(jobs2, out2):
+        if so.startswith('EXN'):
+            rep.broken_obligation('spec-run', {'circuit': stimtext.circuit_text(body), 'error': so[:200]})
+            continue
+        sp = stimtext.parse_spec_out(so)
+        if len(sp['rec']) != nm:
+            continue
+        A = [m & ((1 << nm) - 1) for (c, m) in sp['rec']]       # bit j of A[k]: result j flips result k
+        if any(A[k] >> k for k in range(nm)):
+            rep.broken_obligation('feedback-matrix', {'circuit': stimtext.circuit_text(body), 'error': 'a result depends on a later one'})
+            continue
+        # text: sometimes split mixed instructions into adjacent same-gate lines (the parser fuses them again)
+        lines = []
+        for i in body:
+            if i.name in ('CX', 'CY', 'CZ', 'XCZ', 'YCZ') and len(i.targets) > 2 and rng.random() < 0.5:
+                for k in range(0, len(i.targets), 2):
+                    lines.append(stimtext.Instr(i.name, i.args, i.targets[k:k + 2], i.tag).text())
+            else:
+                lines.append(i.text())
+        text = '\n'.join(lines)
+        nd = sum(1 for i in flat if i.name == 'DETECTOR')
+        ids = [int(i.args[0]) for i in flat if i.name == 'OBSERVABLE_INCLUDE']
+        no = max(ids) + 1 if ids else 0
+        shots = rng.choice([5, 40, 1030] if quick else [1, 7, 64, 1024, 1025, 2500])
+        rows_p = [[rng.random() < 0.5 for _ in range(nm)] for _ in range(shots)]
+        rows = []
+        for r in rows_p:
+            m = []
+            for k in range(nm):
+                v = r[k]
+                a = A[k]
+                j = 0
+                while a:
+                    if a & 1 and m[j]:
+                        v = not v
+                    a >>= 1
+                    j += 1
+                m.append(v)
+            rows.append(m)
+        want = []
+        for k in range(0, shots, 500):
+            payload = text + '\n' + '\n'.join('@M ' + ''.join('1' if b else '0' for b in r) for r in rows[k:k + 500])
+            out = svh.request('m2d', [rng.choice([64, 128, 256]), 1, 0], payload)
+            want += [l[2:] for l in out if l.startswith('R ')]
+        cpath = os.path.join(core.BUILD, 'c04_nofb_%d.stim' % os.getpid())
+        open(cpath, 'w').write(text + '\n')
+        fin = rng.choice(['01', 'b8', 'r8', 'hits', 'dets'])
+        fout = rng.choice(['01', 'b8', 'r8', 'hits', 'dets'])
+        args = ['m2d', '--in_format', fin, '--out_format', fout, '--circuit', cpath, '--ran_without_feedback', '--append_observables']
+        rc, so_, se = core.run_stim(args, docformats.save(fin, rows_p))
+        fed = any(A)
+        rep.count(('c04-nofb', text, shots, fin, fout), nontrivial=fed)
+        cell = {'command': 'stim m2d --ran_without_feedback --append_observables --in_format %s --out_format %s' % (fin, fout), 'circuit': text,
+                'first_rows': [''.join('1' if b else '0' for b in r) for r in rows_p[:4]]}
+        if rc != 0:
+            rep.violation('stim m2d --ran_without_feedback', 'reject-valid', cell, se.decode()[-300:])
+            continue
+        try:
+            got = [d + o for d, o in decode(fout, so_, nd, no, 'append')]
+        except Exception as e:
+            rep.violation('stim m2d --ran_without_feedback', 'wrong-result', cell, 'output cannot be decoded: %s' % e)
+            continue
+        if got != want:
+            bad = next((k for k in range(min(len(got), len(want))) if got[k] != want[k]), None)
+            rep.violation('stim m2d --ran_without_feedback', 'wrong-result', cell,
+                          'detection events of data taken without feedback differ from the circuit\'s own detectors on the corresponding record '
+                          '(first differing shot %s)' % bad, want[bad] if bad is not None else len(want), got[bad] if bad is not None else len(got))
+    try:
+        os.unlink(os.path.join(core.BUILD, 'c04_nofb_%d.stim' % os.getpid()))
+    except OSError:
+        pass
 
 
 def decode(fmt, data, nd, no, layout):
